@@ -416,7 +416,7 @@ def replay(ctx: Ctx, case):
 def run(ctx: Ctx):
     q = ctx.tier == "quick"
     parts = []
-    parts.append(given_part(ctx, "balance", cases(24), check_balance, per_shard(ctx, 800 if q else 30000), batch=50))
+    parts.append(given_part(ctx, "balance", cases(24), check_balance, per_shard(ctx, 640 if q else 30000), batch=50))
     parts.append(given_part(ctx, "cli-blacklist", cli_cases(), check_cli, per_shard(ctx, 160 if q else 4000), batch=20))
     if not q:
         parts.append(given_part(ctx, "balance-large", cases(40), check_balance, per_shard(ctx, 3000), batch=30))
